@@ -382,3 +382,9 @@ def gen_session(rng, mode, knobs, used_names=(), nmax=4, maxlen=65536, password=
 
 def session_names(sess):
     return [op["name"] for op in sess["ops"]]
+
+
+def read_budget(image_len, total_out):
+    """Step budget for reading a *valid* archive: generous (pristine reads use a few percent of it even with a
+    1-byte chunk limit), yet a spin is cut after well under a second of CPU."""
+    return 300000 + 100 * image_len + 200 * total_out
